@@ -85,6 +85,9 @@ var initOrder = []string{"empty", "cacheall", "sub-c0", "cached-e1"}
 
 var alphabet = []op{{"put", "e1", ""}, {"put", "e2", ""}, {"sub", "c1", "all"}, {"sub", "c2", "e1"}, {"release", "", "all"}, {"close", "c0", ""}, {"cache", "", "e1"}}
 
+// subClosed: subscribing a consumer that may already be closed (refused: must leave the cache alone)
+var subC0 = op{"sub", "c0", "all"}
+
 var table = map[string]scenario{}
 
 func progName(p [][]op) string {
@@ -129,7 +132,8 @@ func scenarios(res *report.Result) []schedrun.Scenario {
 		}
 	}
 	// two threads, two ops in the first: put;put and put;sub style sequences against one op
-	seqs := [][]op{{alphabet[0], alphabet[1]}, {alphabet[0], alphabet[2]}, {alphabet[2], alphabet[0]}, {alphabet[6], alphabet[0]}, {alphabet[0], alphabet[4]}}
+	seqs := [][]op{{alphabet[0], alphabet[1]}, {alphabet[0], alphabet[2]}, {alphabet[2], alphabet[0]}, {alphabet[6], alphabet[0]}, {alphabet[0], alphabet[4]},
+		{alphabet[5], subC0}, {subC0, alphabet[5]}}
 	for _, sq := range seqs {
 		for _, b := range alphabet {
 			progs = append(progs, [][]op{sq, {b}})
@@ -178,6 +182,15 @@ func scenarios(res *report.Result) []schedrun.Scenario {
 				b := bound2
 				if len(pr) == 3 {
 					b = bound3
+				}
+				if !res.Thorough() {
+					// quick: the deepest bound only for single-operation programs on recording consumers
+					if kind == "receiver" || len(pr[0]) > 1 {
+						b = 1
+					}
+					if kind == "receiver" && len(pr) == 3 {
+						continue
+					}
 				}
 				n := kind + "/" + in + "/" + progName(pr)
 				table[n] = scenario{init: in, progs: pr, consumer: kind}
